@@ -20,6 +20,7 @@ import (
 	"os"
 	"path/filepath"
 	"runtime"
+	"strings"
 	"time"
 
 	"github.com/idena-network/idena-go/blockchain/types"
@@ -561,6 +562,89 @@ func c03run(c *hx.Ctx, cs c03case) error {
 				c.Rep.Distinct++
 			}
 		}
+		// sub-chain validation (the route of fork resolution and of a syncing node): A moves ahead by this block and proposes
+		// the next one; B, still on the parent, evaluates the two as a fork with the real ValidateSubChain.  Without
+		// certificates the honest pair must be refused only for the missing certificate (i.e. after both blocks were
+		// evaluated), and a pair whose second block is tampered with must be refused earlier.
+		aAdded := false
+		if !empty && !blk.Header.Flags().HasFlag(types.IdentityUpdate) && (b <= 3 || b%5 == 0) {
+			if err := A.Add(blk); err != nil {
+				fail("C03:history-broken", "A.Add: "+err.Error(), b)
+				return nil
+			}
+			aAdded = true
+			if eligibleOn(A, A.Addr) {
+				chainfx.Advance(20 * time.Second)
+				p2, perr := A.Propose()
+				if perr == nil && p2 != nil && !p2.Block.IsEmpty() {
+					certErr := func(e error) bool {
+						return e != nil && (strings.Contains(e.Error(), "cert is missing") || strings.Contains(e.Error(), "should have a certificate"))
+					}
+					sub := func(b2 *types.Block) (e error) {
+						defer func() {
+							if rec := recover(); rec != nil {
+								e = fmt.Errorf("panic: %v", rec)
+							}
+						}()
+						b1, _ := chainfx.CloneBlock(blk)
+						return B.Chain.ValidateSubChain(B.Chain.Head.Height(), []types.BlockBundle{{Block: b1}, {Block: b2}})
+					}
+					beforeSub := observe(B)
+					h2, _ := chainfx.CloneBlock(p2.Block)
+					if e := sub(h2); !certErr(e) {
+						fail("C03:honest-sub-chain-refused", fmt.Sprintf("heights %d,%d evaluated by a node on height %d: %v", blk.Height(), p2.Block.Height(), B.Chain.Head.Height(), e), b)
+						return nil
+					}
+					c.Hit("sub-chain:honest-pair-evaluated")
+					ph2 := func(x *types.Block) *types.ProposedHeader { return x.Header.ProposedHeader }
+					subTampers := []tamper{
+						{"sub FeePerGas plus1", func(x *types.Block) bool {
+							if ph2(x).FeePerGas == nil {
+								return false
+							}
+							ph2(x).FeePerGas = new(big.Int).Add(ph2(x).FeePerGas, big.NewInt(1))
+							return true
+						}},
+						{"sub FeePerGas of-the-validators-head", func(x *types.Block) bool {
+							hf := B.App.State.FeePerGas()
+							if hf == nil || hf.Sign() == 0 || ph2(x).FeePerGas != nil && hf.Cmp(ph2(x).FeePerGas) == 0 {
+								return false
+							}
+							ph2(x).FeePerGas = new(big.Int).Set(hf)
+							return true
+						}},
+						{"sub Root flip", func(x *types.Block) bool { ph2(x).Root = flipHash(ph2(x).Root); return true }},
+						{"sub IdentityRoot flip", func(x *types.Block) bool { ph2(x).IdentityRoot = flipHash(ph2(x).IdentityRoot); return true }},
+						{"sub TxHash flip", func(x *types.Block) bool { ph2(x).TxHash = flipHash(ph2(x).TxHash); return true }},
+						{"sub Flags toggle-snapshot", func(x *types.Block) bool { ph2(x).Flags ^= types.Snapshot; return true }},
+						{"sub Height plus1", func(x *types.Block) bool { ph2(x).Height++; return true }},
+						{"sub BlockSeed flip", func(x *types.Block) bool { ph2(x).BlockSeed[3] ^= 1; return true }},
+					}
+					for _, t := range subTampers {
+						tb, _ := chainfx.CloneBlock(p2.Block)
+						if !t.apply(tb) {
+							continue
+						}
+						tb2, err := chainfx.CloneBlock(tb)
+						if err != nil {
+							continue
+						}
+						e := sub(tb2)
+						c.Rep.Evaluations++
+						c.Hit("op:" + t.line)
+						if e == nil || certErr(e) {
+							fail("C03:tampered-block-accepted-in-sub-chain:"+t.line, fmt.Sprintf("heights %d,%d: second block with (%s) passed the evaluation of ValidateSubChain (%v)", blk.Height(), p2.Block.Height(), t.line, e), b)
+							return nil
+						}
+					}
+					if after := observe(B); after != beforeSub {
+						fail("C03:validation-changed-node:sub-chain", fmt.Sprintf("height %d: sub-chain evaluations changed the node", blk.Height()), b)
+						return nil
+					}
+				}
+				chainfx.Advance(-20 * time.Second)
+			}
+		}
 		// the honest original is still insertable on B (through the wire) and on A
 		orig, _ := chainfx.CloneBlock(blk)
 		if err := B.Add(orig); err != nil {
@@ -569,9 +653,11 @@ func c03run(c *hx.Ctx, cs c03case) error {
 			return nil
 		}
 		c.Line("orig", "acc")
-		if err := A.Add(blk); err != nil {
-			fail("C03:history-broken", "A.Add: "+err.Error(), b)
-			return nil
+		if !aAdded {
+			if err := A.Add(blk); err != nil {
+				fail("C03:history-broken", "A.Add: "+err.Error(), b)
+				return nil
+			}
 		}
 		if A.Chain.Head.Hash() != B.Chain.Head.Hash() || A.App.State.Root() != B.App.State.Root() {
 			fail("C03:replicas-diverge", fmt.Sprintf("height %d", blk.Height()), b)
